@@ -55,6 +55,12 @@ def run_api_property(prop, tier, clauses, design=None, extra_assumptions=(), non
     rep.extra["stage_paths"] = sres["paths"][:60]
     rep.extra["model_drift_count"] = len(sres["drift"])
     rep.extra["model_drift"] = sres["drift"][:5]
+    try:
+        from harness import model_coverage
+        hist_all = common.read_ndjson(os.path.join(wd, "stage_histories.ndjson"))
+        rep.extra["pipeline_model_coverage"] = model_coverage.pipeline_cover(hist_all)
+    except common.MachineryError:
+        raise
     for d in sres["drift"][:5]:
         print("MODEL-DRIFT property=%s row history is not a behaviour of Pipeline.tla: input=%s stuck before stage %s" %
               (prop, d["input"][:100], d["stuck_before_stage"]))
